@@ -74,3 +74,201 @@ def signed_set(tier):
     for n in L.wide_bases(tier):
         structs += L.pack(n, L.signed_dedicated(n), 'SIGNED', passes=[('alpha', 'alpha')] if n > 24 else [('alpha', 'full'), ('full', 'alpha')])
     return structs
+
+
+# ------------------------------------------------------------------------------------------------
+# C07: bitenums
+
+import itertools
+
+
+def _forms(n, discs, orders=True):
+    """all accepted `exhaustive` forms for a discriminant tuple (declaration order preserved)"""
+    full = len(set(discs)) == (1 << n)
+    out = []
+    if full:
+        out.append(EnumDef(n, 'true', discs, spell='='))
+        out.append(EnumDef(n, 'true', discs, spell=':'))
+    else:
+        out.append(EnumDef(n, 'false', discs, spell='='))
+        out.append(EnumDef(n, 'false', discs, spell=':'))
+        out.append(EnumDef(n, 'false', discs, omit_exh=True))
+    out.append(EnumDef(n, 'conditional', discs, spell='='))
+    return out
+
+
+def _orders(ds, allperm=False):
+    ds = tuple(sorted(ds))
+    if allperm:
+        return [tuple(p) for p in itertools.permutations(ds)]
+    res = [ds]
+    if len(ds) > 1:
+        res.append(tuple(reversed(ds)))
+        res.append(ds[1:] + ds[:1])
+        res.append(ds[-1:] + ds[:-1])       # largest first
+    seen, out = set(), []
+    for r in res:
+        if r not in seen:
+            seen.add(r)
+            out.append(r)
+    return out
+
+
+def enum_set(tier):
+    eds = []
+    for n in (1, 2, 3):
+        U = range(1 << n)
+        for k in range(1, (1 << n) + 1):
+            for ds in itertools.combinations(U, k):
+                for od in _orders(ds, allperm=(n <= 2)):
+                    eds += _forms(n, od)
+                # conditional with a dead (#[cfg(any())]) variant whose discriminant is otherwise unused
+                rest = [d for d in U if d not in ds]
+                if rest:
+                    eds.append(EnumDef(n, 'conditional', tuple(ds), dead=(rest[0],)))
+                    if len(rest) > 1:
+                        eds.append(EnumDef(n, 'conditional', tuple(ds), dead=(rest[-1], rest[0])))
+    n = 4
+    U = range(16)
+    sizes = (1, 2, 14, 15, 16) if tier == 'quick' else range(1, 17)
+    for k in sizes:
+        for ds in itertools.combinations(U, k):
+            if tier == 'quick' or k in (1, 2, 3, 14, 15, 16):
+                for od in _orders(ds)[:2]:
+                    eds += _forms(n, od)[:1]
+            else:
+                eds.append(_forms(n, tuple(ds))[0])
+    for n in range(5, 9):
+        mx = (1 << n) - 1
+        full = tuple(range(1 << n))
+        eds += _forms(n, full)
+        eds += _forms(n, tuple(reversed(full)))[:1]
+        eds += _forms(n, full[1:] + full[:1])[:1]
+        eds += _forms(n, full[:-1])            # full minus one (max missing)
+        eds += _forms(n, full[1:])[:1]         # zero missing
+        for d in (0, 1, 1 << (n - 1), mx):
+            eds += _forms(n, (d,))[:1]
+        eds += _forms(n, (0, mx))
+        eds += _forms(n, (mx, 0))[:1]
+        eds.append(EnumDef(n, 'conditional', (0, mx), dead=(1,)))
+    for n in range(9, 65):
+        mx = (1 << n) - 1
+        eds += _forms(n, (mx,))[:1]
+        eds += _forms(n, (0, mx))[:1 if tier == 'quick' else 4]
+        eds += _forms(n, (0, 1, 1 << (n - 1), mx))[:1]
+        eds += _forms(n, (mx, 1 << (n - 1), 1, 0))[:1]
+        if n in (9, 16, 17, 32, 33, 63, 64):
+            eds += _forms(n, (0, mx))
+            eds.append(EnumDef(n, 'conditional', (mx, 0), dead=(1, 2)))
+    if tier == 'thorough':
+        # N = 9, 10: the exhaustive enums (512 / 1024 variants)
+        for n in (9, 10):
+            eds += _forms(n, tuple(range(1 << n)))[:1]
+    # dedupe by name
+    seen, out = set(), []
+    for e in eds:
+        if e.name not in seen:
+            seen.add(e.name)
+            out.append(e)
+    return out
+
+
+# ------------------------------------------------------------------------------------------------
+# C06: raw round trip, constants, layout
+
+def consts_set(tier):
+    structs = []
+    for n in range(1, 129):
+        m = mask(n)
+        aa = 0xAAAAAAAAAAAAAAAAAAAAAAAAAAAAAAAA & m
+        # fields cover only bit 0 (bool) and, when there is room, bits 1..=2: every other default bit is "covered by no field"
+        def fields():
+            fs = [Field([(0, 1)], 'b', family='CONST')]
+            if n >= 3:
+                fs.append(Field([(1, 2)], 'u', family='CONST'))
+            return fs
+        structs.append(Struct(n, fields(), family='CONST'))
+        vals = []
+        for v in (0, 1, m, aa, m & ~0x7, (1 << (n - 1)), 0x0123456789ABCDEFFEDCBA9876543210 & m):
+            if v not in vals:
+                vals.append(v)
+        k = 0
+        for v in vals:
+            for form in ('lit', 'const'):
+                for sep in ('=', ':'):
+                    k += 1
+                    # quick: every value in one (rotating) form/spelling, boundary values in all four; thorough: full product
+                    if tier == 'quick' and v not in (m, m & ~0x7) and (k + n) % 4 != 0:
+                        continue
+                    structs.append(Struct(n, fields(), default=v, default_form=form, default_sep=sep, family='CONSTDEF'))
+    return structs
+
+
+# ------------------------------------------------------------------------------------------------
+# C08: enum- and custom-typed fields
+
+def ex_enum(w):
+    full = tuple(range(1 << w))
+    return EnumDef(w, 'true', full[1:] + full[:1])
+
+
+def ne_enum(w):
+    mx = (1 << w) - 1
+    if w == 1:
+        return EnumDef(1, 'false', (1,))
+    ds = [mx, 0, 1 << (w - 1)]
+    if w >= 3:
+        ds.append(1)
+    return EnumDef(w, 'false', tuple(ds), omit_exh=(w % 2 == 0))
+
+
+NE_WIDTHS = (1, 2, 3, 4, 5, 6, 7, 8, 9, 16, 17, 32, 33, 63, 64)
+IN_WIDTHS = (1, 3, 4, 8, 12, 16, 24, 32, 64, 100, 128)
+
+
+def custom_fields(n, tier):
+    out = []
+    exw = range(1, 5) if tier == 'quick' else range(1, 9)
+
+    def mk(kind, w, **kw):
+        if kind == 'e':
+            return dict(kind='e', enum=ex_enum(w), **kw)
+        if kind == 'o':
+            return dict(kind='o', enum=ne_enum(w), **kw)
+        return dict(kind='c', inner_n=w, **kw)
+
+    cands = [('e', w) for w in exw] + [('o', w) for w in NE_WIDTHS] + [('c', w) for w in IN_WIDTHS]
+    for kind, w in cands:
+        if w > n:
+            continue
+        fam = {'e': 'CUSTEX', 'o': 'CUSTOPT', 'c': 'CUSTNEST'}[kind]
+        for lo in sorted({0, 1, n - w} & set(range(0, n - w + 1))):
+            out.append(Field([(lo, w)], family=fam, **mk(kind, w)))
+        # arrays
+        for stride in (w, w + 1):
+            kmax = (n - w) // stride + 1
+            for K in sorted({2, kmax}):
+                if 2 <= K <= kmax:
+                    out.append(Field([(0, w)], arr=(K, stride), family=fam + 'ARR', stride_explicit=(stride != w), **mk(kind, w)))
+                    if (n - w - (K - 1) * stride) >= 1:
+                        out.append(Field([(1, w)], arr=(K, stride), family=fam + 'ARR', **mk(kind, w)))
+        # split over two ranges, both orders
+        if w >= 2 and w + 1 <= n:
+            h = w // 2
+            out.append(Field([(0, h), (n - (w - h), w - h)], family=fam + 'NC', **mk(kind, w)))
+            out.append(Field([(n - (w - h), w - h), (0, h)], family=fam + 'NC', **mk(kind, w)))
+            out.append(Field([(1, w - h), (w - h + 1, h)], family=fam + 'NC', **mk(kind, w)) if w + 1 <= n else None)
+            # multi-range arrays
+            span = w + 1
+            if 2 * span <= n:
+                out.append(Field([(h + 1, w - h), (0, h)], arr=(2, span), family=fam + 'NCARR', **mk(kind, w)))
+    return [f for f in out if f is not None]
+
+
+def custom_set(tier):
+    structs = []
+    for n in range(1, 17):
+        structs += L.pack(n, custom_fields(n, tier), 'CUSTOM', per=30, passes=[('full', 'full')])
+    for n in L.wide_bases(tier):
+        structs += L.pack(n, custom_fields(n, tier), 'CUSTOM', per=30, passes=[('alpha', 'alpha')])
+    return structs
